@@ -158,6 +158,8 @@ func buildUnits(r *vk.Run) []unit {
 	var us []unit
 	small := []kind{kVotePeer, kVoteOwn, kPropPeer, kPartSmall, kTimeout, kStep, kEndHeight}
 	four := []kind{kVotePeer, kPartSmall, kTimeout, kEndHeight}
+	zeroEnd := []kind{kEndHeightZ, kStepZ, kPartZ, kEndHeight, kVotePeer}
+	zeroMarkers := []kind{kEndHeightZ, kEndHeight, kTimeout}
 	five := []kind{kVotePeer, kPartSmall, kTimeout, kStep, kEndHeight}
 	if *partFlag == "all" || *partFlag == "histories" {
 		if r.Quick() {
@@ -181,6 +183,14 @@ func buildUnits(r *vk.Run) []unit {
 	if *partFlag == "all" || *partFlag == "damage" {
 		us = append(us, imageUnits("damage/all-kinds/1-record", small, 1)...)
 		us = append(us, imageUnits("damage/all-kinds/2-records", small, 2)...)
+		// records whose encoding ends in 0x00 bytes (markers of heights 256, 65536, 1<<24; strings ending in NUL):
+		// a cut that drops only such bytes must still be a torn record
+		us = append(us, imageUnits("damage/trailing-zero-kinds/1-record", zeroEnd, 1)...)
+		us = append(us, imageUnits("damage/trailing-zero-kinds/2-records", zeroEnd, 2)...)
+		us = append(us, imageUnits("damage/trailing-zero-markers/3-records", zeroMarkers, 3)...)
+		if !r.Quick() {
+			us = append(us, imageUnits("damage/trailing-zero-kinds/3-records", zeroEnd, 3)...)
+		}
 		// images with buffer overflow: unsynced 32 KiB parts fill the 40 KiB head buffer, bufio flushes a record
 		// in two pieces, and a tick falls in between
 		g := "damage/scripted-large"
